@@ -22,6 +22,13 @@ def run_in_child(fn, args=(), timeout=120.0):
         code = 0
         try:
             os.close(r)
+            # the library prints (banners, KMeans' explanation before sys.exit ...): a run's stdout is not the check's stdout
+            try:
+                dn = os.open(os.devnull, os.O_WRONLY)
+                os.dup2(dn, 1)
+                os.close(dn)
+            except OSError:
+                pass
             try:
                 import faulthandler
 
